@@ -398,7 +398,22 @@ def legacy_astral_range(text):
     return False
 
 
-PREDICATES = {"legacy_icase_x8": f8_predicate, "legacy_astral_range": legacy_astral_range}
+def legacy_u_brace(text):
+    """Class predicate of known finding F30 for C08: no u/v flag and the pattern contains `\\u{` hex digits `}`
+    (ECMAScript reads that as `u` followed by a brace group, the crate as a code point escape)."""
+    m = re.match(r"esvalid (\S+) (\S+) \|\| ", text)
+    if not m:
+        return False
+    flags, pat = m.group(1), m.group(2)
+    if "u" in flags or "v" in flags or pat == "-":
+        return False
+    s = "".join(chr(int(x, 16)) if int(x, 16) < 0xD800 or int(x, 16) > 0xDFFF else "\ufffd" for x in pat.split("."))
+    # a group name may use the brace form in every mode: only occurrences outside `(?<…>` / `\\k<…>` count
+    s = re.sub(r"(\(\?|\\k)<[^>]*>", "", s)
+    return re.search(r"\\u\{[0-9a-fA-F]+\}", s) is not None
+
+
+PREDICATES = {"legacy_icase_x8": f8_predicate, "legacy_astral_range": legacy_astral_range, "legacy_u_brace": legacy_u_brace}
 
 
 def c11_oracle_compare(outdir, oracle):
@@ -741,6 +756,9 @@ def check(pid, tier, seed):
                     tie_diffs = []
                     for d in diffs:
                         op = d["request"].split(" ")[0]
+                        if op.startswith("semfind16") and d["impl"] == "fuel":
+                            stats["dist"]["fuel-skips"] = stats["dist"].get("fuel-skips", 0) + 1
+                            continue
                         if op == "runprog" and (d["impl"].endswith(" fuel") or d["model"] == "fuel"):
                             # the harness' step budget (3M) was exhausted on the implementation (a C05 violation is
                             # raised by the harness where that matters); nothing to compare
